@@ -340,7 +340,7 @@ PROPS = {
         'level_note': 'Trusted: Lean kernel + 3 axioms; draw in [-1/2,1/2) (rand gen_range, pinned by rng family).',
         'technique': 'Lean 4 invariant proof over runs + bit-exact differential correspondence',
         'theorems': ['Proofs.C19', 'Proofs.C07Draw', 'Proofs.TieBasis', 'Proofs.DeclBasis'],
-        'families': [('basis', 1000, 20000), ('opt', 1500, 30000)],
+        'families': [('basis', 1000, 20000), ('opt', 1500, 30000), ('rng', 300, 6000)],
         'search': (10, 240),
         'rule': 'opt as for C05 with multi-loop configurations and all rejection rates; search: per-proposal step-bound monitor on recorded real histories',
         'assumptions': ['f64 rounding not modelled'],
